@@ -26,9 +26,10 @@ def parse_deductive(rep):
     """visitor: grammar alternative of `predicateexpression` -> AST node (C06, C05): ',' conjunction, '->' if-then,
     ';' disjunction, '\\+' negation, parentheses transparent"""
     from ..pyvc.theory_visitor import ParseTheory
-    fw.deductive(rep, ['yp_prolog_visitor.YPPrologVisitor.visitPredicateexpression'], ['visitor'], ['control.smt2'], theory=ParseTheory)
-    rep.assumptions.append('visitSimplepredicate builds spbody(node) (assumed contract; bounded-checked by the reader differential); '
-                           'the parse tree is a derivation of prolog.g4 with op in {",", "->", ";", "\\+"} (A-EXT-ANTLR)')
+    fw.deductive(rep, ['yp_prolog_visitor.YPPrologVisitor.' + f for f in ('visitPredicateexpression', 'visitSimplepredicate', 'visitTermpredicate')],
+                 ['visitor'], ['control.smt2'], theory=ParseTheory)
+    rep.assumptions.append('visitTerm returns the term AST tpterm(node) (assumed contract; bounded-checked by the reader differential); '
+                           'arguments of exception constructors are not evaluated; the parse tree is a derivation of prolog.g4 with op in {",", "->", ";", "\\+"} (A-EXT-ANTLR)')
 
 
 CLAUSE_TARGETS = ['yp_generator.YPPrologCompiler.' + f for f in (
